@@ -232,7 +232,7 @@ def q_rebind(tier='quick'):
 # ------------------------------------------------------------------------------------------------ C10: namespaces
 
 ADV_URIS = ['http://example.com/v1/types', 'http://example.com/v2/types', 'http://example.com/typ', 'urn:example:types',
-            'http://example.com/api/v11', 'http://example.com/api/v1', 'http://example.com/types/', 'http://example.com/my-types', 'http://example.com/t.y.p.e', 'http://example.com/v1/messages']
+            'http://example.com/api/v11', 'http://example.com/api/v1', 'http://example.com/services/zoë', 'http://example.com/types/', 'http://example.com/my-types', 'http://example.com/t.y.p.e', 'http://example.com/v1/messages']
 
 
 def n_namespaces(tier='quick'):
@@ -269,7 +269,7 @@ def n_within(tier='quick'):
 def s_xref(tier='quick'):
     """element ref= to a global element of ANOTHER namespace (imported file); the two namespace URIs are symbolic over
     adversarial URIs; the start file's target namespace has no xmlns declaration of its own"""
-    dom = ADV_URIS[:6] if tier == 'quick' else ADV_URIS
+    dom = ADV_URIS[:7] if tier == 'quick' else ADV_URIS
     ua = Selector('uri_a', dom)
     ub = Selector('uri_b', dom)
     remote = GEl('Remote', content=Seq([El('r', 'xs:string')]))
@@ -292,7 +292,8 @@ def w_ops(tier='quick', headers=0, other_ns=False):
     partn = Selector('part_name', ['parameters', 'body'])
     has_out = Selector('has_output', [True, False])
     svc = Selector('service_name', ['OrdersService', 'Orders'])
-    sels = [opn, eln, partn, has_out, svc]
+    locsel = Selector('address', ['http://example.com/orders', 'http://example.com/gateway/soap?service=hello&tenant=acme'])
+    sels = [opn, eln, partn, has_out, svc, locsel]
     els = [GEl(eln, content=Seq([El('symbol', 'xs:string')])), body_el('GetQuoteResponse'), body_el('PingRequest'), body_el('PingResponse')]
     hdr_els = []
     hparts = []
@@ -316,9 +317,9 @@ def w_ops(tier='quick', headers=0, other_ns=False):
              action='http://example.com/orders/v1/GetQuote', has_output=(has_out.var == 0))
     op2 = Op('Ping', 'tns:PingIn', 'tns:PingOut')
     sch = Schema(NSW, els, prefixes={})
-    w = Wsdl(NSW, sch, msgs, [op1, op2], service=svc, location='http://example.com/orders')
+    w = Wsdl(NSW, sch, msgs, [op1, op2], service=svc, location=locsel)
     sc = Scenario('W-ops-h%d' % headers, {'svc.wsdl': w.tree()}, 'svc.wsdl', sels)
-    return sc, Info(wsdl=w, opn=opn, eln=eln, partn=partn, has_out=has_out, svc=svc, headers=hparts, parts_attr=parts_attr,
+    return sc, Info(wsdl=w, opn=opn, eln=eln, partn=partn, has_out=has_out, svc=svc, headers=hparts, parts_attr=parts_attr, location=locsel,
                     ops=[dict(name=opn, body_el=eln, headers=[h[1].split(':')[1] for h in hparts], has_output=has_out, out_el='GetQuoteResponse'),
                          dict(name='Ping', body_el='PingRequest', headers=[], has_output=True, out_el='PingResponse')])
 
@@ -395,7 +396,8 @@ def r_facets(tier='quick', as_attr=False, group='num'):
     nenum = Selector('n_enum', [0, 1, 2])
     base = Selector('base', ['xs:string', 'xs:int', 'xs:long'] if tier == 'thorough' else ['xs:string', 'xs:int'])
     st = ST('Code', base, dict(facets, pattern='[A-Z]+', whiteSpace='collapse', totalDigits='4'), facets_as_attr=as_attr)
-    sch = Schema(NS1, [st, CT('Holder', Seq([El('code', 't:Code'), El('codes', 't:Code', '0', 'unbounded'), El('maybe', 't:Code', '0')]))], prefixes={'t': NS1})
+    sch = Schema(NS1, [st, CT('Holder', Seq([El('code', 't:Code'), El('codes', 't:Code', '0', 'unbounded'), El('maybe', 't:Code', '0')]),
+                                 attrs=[Attr('tag', 't:Code', 'required'), Attr('share', 't:Code')])], prefixes={'t': NS1})
     tree = sch.tree()
     # enumerations: two optional children of xs:restriction
     from xmltree import Opt as _Opt, E as _E
@@ -534,7 +536,7 @@ def inject_xsd(tier='quick', active=()):
     aname = _site('site_attribute_name', IDENT_DOM, active)
     sname = _site('site_simple_type_name', ['Code'] + IDENT_DOM[1:5], active)
     ev = _site('site_enumeration_value', LIT_DOM, active)
-    fv = _site('site_facet_value', ['3', ABSENT, '3); fn marker() {} //', '-1', 'x', ' 12 '], active)
+    fv = _site('site_facet_value', ['3', ABSENT, '3); fn marker() {} //', '-1', 'x', ' 12 ', '+5', '007', '1_000', '0x10', '1e3'], active)
     doc = _site('site_documentation', DOC_DOM, active)
     uri = _site('site_namespace_uri', URI_DOM, active)
     st = ST(sname, 'xs:string', {'maxLength': fv}, enums=[ev], doc=doc)
